@@ -645,12 +645,11 @@ func (s *scope) createInstance(descriptor *Descriptor) (any, error) {
 			}
 
 			regDescriptor = s.rootProvider.findDescriptor(reg.Type, regKey)
-			if regDescriptor == nil {
-				return nil, &ResolutionError{
-					ServiceType: reg.Type,
-					ServiceKey:  regKey,
-					Cause:       fmt.Errorf("no descriptor found for return type %v", reg.Type),
-				}
+			if regDescriptor == nil || regDescriptor.registration != descriptor.registration {
+				// This output has been removed from the collection: its value
+				// is dropped, it must not end up under the identity of another
+				// registration.
+				continue
 			}
 
 			key := instanceKey{
@@ -702,12 +701,11 @@ func (s *scope) createInstance(descriptor *Descriptor) (any, error) {
 				serviceDescriptor = s.rootProvider.findDescriptor(ret.Type, nil)
 			}
 
-			if serviceDescriptor == nil {
-				return nil, &ResolutionError{
-					ServiceType: ret.Type,
-					ServiceKey:  nil,
-					Cause:       fmt.Errorf("no descriptor found for return type %v", ret.Type),
-				}
+			if serviceDescriptor == nil || serviceDescriptor.registration != descriptor.registration {
+				// This return value has been removed from the collection: it
+				// is dropped, it must not end up under the identity of
+				// another registration.
+				continue
 			}
 
 			key := instanceKey{
